@@ -445,7 +445,8 @@ def run_property(prop, tier="quick", seed=0, repo="/repo"):
 def frame_obligations(repo, props=None):
     from . import frames
     index = SourceIndex(repo)
-    obs = frames.effect_scan(index) + frames.label_noninterference(index) + frames.cost_roles(index)
+    obs = frames.effect_scan(index) + frames.label_noninterference(index) + frames.cost_roles(index) + \
+        frames.identity_comparisons(index)
     if props:
         obs = [o for o in obs if set(o["props"]) & set(props)]
     return obs
